@@ -21,6 +21,24 @@ fn c11_quantile_index_total() {
         Err(_) => assert!(false, "undocumented error variant"),
     }
 }
+// ---- C03: Stats::index is the rank min(floor(q n), n - 1), stated through the defining inequalities of floor (no second
+// copy of the computation): i <= q*n < i + 1, or i = n - 1 <= q*n when capped.  All f64 quantiles in [0,1], populations to 2^40.
+#[kani::proof]
+fn c03_index_is_capped_floor() {
+    let n: usize = kani::any();
+    let q: f64 = kani::any();
+    kani::assume(1 <= n && n <= (1usize << 40) && q >= 0.0 && q <= 1.0);
+    let i = (Stats { population: n }).index(q).unwrap();
+    let x = q * n as f64;
+    let fi = i as f64;
+    if i < n - 1 {
+        assert!(fi <= x && x < fi + 1.0, "rank is not floor(q n)");
+    } else {
+        assert!(fi <= x, "rank capped at n - 1 although floor(q n) is smaller");
+    }
+    kani::cover!(i < n - 1 && x == fi, "q n integral");
+    kani::cover!(i == n - 1);
+}
 // ---- C11: Stats::ci / ci_indices: documented error order, ranks in range and ordered.
 // Modular: proportion::ci_wilson is replaced by a stub that returns exactly what its own verified contract allows
 // (c11_ci_wilson_domain_and_wellformed + Verus `ci_wilson ensures r == wilson_spec`): the documented errors on the documented
@@ -178,4 +196,15 @@ fn c11_quantile_ci_max_size_capacity_panics() {
     let data: [u8; 5] = kani::any();
     let _ = ci_max_size::<u8, _, 4>(Confidence::TwoSided(0.5), &data, 0.5);
     kani::cover!(true, "REACH_AFTER_REJECT");
+}
+
+// ---- frame condition (C03 / C10): quantile::Stats::ci writes to nothing but its own locals (see kani/contracts.json)
+#[kani::proof_for_contract(Stats::ci)]
+#[kani::stub(crate::stats::z_value, z_two)]
+fn c10t_frame_quantile_stats_ci_writes_no_hidden_state() {
+    let s = Stats::new(kani::any());
+    let q: f64 = kani::any();
+    let r = s.ci(crate::stats::verif_kani::any_confidence(), q);
+    kani::cover!(r.is_ok());
+    kani::cover!(r.is_err());
 }
